@@ -6,7 +6,7 @@ from fractions import Fraction
 
 from ..keval import KEval, Ref, Cond, Const, Top, SLICE
 from ..poly import Poly, ZERO, ONE
-from ..forms import drop_implied_any, value_poly, real_guards, short, is_full_range, norm_cond, CMP
+from ..forms import drop_implied_any, resolve_default_ite, value_poly, real_guards, short, is_full_range, norm_cond, CMP
 from .. import wire
 from ..model import norm_text, AnchorMissing
 from ..controls import Control
@@ -68,7 +68,9 @@ def kernel_rule(ctx, p, K):
     okc = bo == {(ZERO,): Poly.fn("mean", E_("border_grid", S_(":"), ZERO)), (ONE,): Poly.fn("mean", E_("border_grid", S_(":"), ONE))}
     ctx.ob(rule, f.key + ":centroid", okc, where=f, node=f.node, construct=str({repr(i): repr(v) for i, v in bo.items()}), message="the relocation centre must be the centroid (mean y, mean x) of the border points")
     # guards
-    gs = drop_implied_any(real_guards(mv.guards), [l.var for l in mv.loops])   # (an early return taken when no point lies beyond the smallest border radius is the same decision, made once)
+    gs, mv_value = resolve_default_ite(drop_implied_any(real_guards(mv.guards), [l.var for l in mv.loops]), value_poly(mv.value))   # (a move factor defaulted to 1.0 and clamped with min(1.0, .) is the same test and the same factor)
+    gs = [x for g_ in gs for x in g_.flat_and()]
+    _unused = 0   # (an early return taken when no point lies beyond the smallest border radius is the same decision, made once)
     got = sorted(str(norm_cond(c)) for c in gs)
     want = sorted([str(norm_cond(CMP(r_k, ">", Poly.fn("min", Rb_all)))), str(norm_cond(CMP(mf, "<", ONE)))])
     ctx.ob(rule, f.key + ":guards", got == want, where=f, node=mv.node, construct="; ".join(got)[:500],
@@ -76,7 +78,7 @@ def kernel_rule(ctx, p, K):
                    "all radii measured from the same centroid, the nearest border point found by squared distance in both components")
     # moved point = factor * (p - c) + c : on the ray from the centroid through the point
     want_v = mf * (E_("grid", k) - S_(BO)) + S_(BO)
-    v = value_poly(mv.value)
+    v = mv_value
     ctx.ob(rule, f.key + ":on-ray", v == want_v, where=f, node=mv.node, construct=short(v, 260),
            message="the moved point must be factor * (p - c) + c with the same centre c (on its ray from the centroid, at the radius of the nearest border point)")
 
